@@ -2,8 +2,11 @@ package container
 
 import (
 	"bufio"
+	"bytes"
 	"compress/gzip"
 	"context"
+	"encoding/binary"
+	"io"
 	"os"
 
 	"github.com/specterops/dawgs/graph"
@@ -30,15 +33,24 @@ func (s BFSTreeFile) ReadEach(ctx context.Context, delegate func(next *Segment) 
 		} else {
 			defer gzipReader.Close()
 
-			scanner := bufio.NewScanner(gzipReader)
-			scanner.Split(bufio.ScanLines)
+			reader := bufio.NewReader(gzipReader)
 
-			for scanner.Scan() {
-				if err := scanner.Err(); err != nil {
+			for {
+				var recordLength [4]byte
+
+				if _, err := io.ReadFull(reader, recordLength[:]); err == io.EOF {
+					break
+				} else if err != nil {
 					return err
 				}
 
-				if shouldContinue, err := delegate(UnmarshalSegment(scanner.Bytes())); err != nil {
+				segmentBytes := make([]byte, binary.LittleEndian.Uint32(recordLength[:]))
+
+				if _, err := io.ReadFull(reader, segmentBytes); err != nil {
+					return err
+				}
+
+				if shouldContinue, err := delegate(UnmarshalSegment(segmentBytes)); err != nil {
 					return err
 				} else if !shouldContinue {
 					break
@@ -48,6 +60,29 @@ func (s BFSTreeFile) ReadEach(ctx context.Context, delegate func(next *Segment) 
 	}
 
 	return nil
+}
+
+// writeSegmentRecord writes one record of a BFSTreeFile: the length of the marshalled segment in bytes (32 bit, little
+// endian) followed by the marshalled segment. Marshalled segments are binary, any byte value may occur in an ID, so a
+// separator byte can not frame them.
+func writeSegmentRecord(segment *Segment, writer io.Writer) error {
+	var (
+		segmentBytes bytes.Buffer
+		recordLength [4]byte
+	)
+
+	if err := MarshalSegment(segment, &segmentBytes); err != nil {
+		return err
+	}
+
+	binary.LittleEndian.PutUint32(recordLength[:], uint32(segmentBytes.Len()))
+
+	if _, err := writer.Write(recordLength[:]); err != nil {
+		return err
+	}
+
+	_, err := writer.Write(segmentBytes.Bytes())
+	return err
 }
 
 func WriteZoneBFSTree(zoneNodes graph.NodeSet, ts Triplestore, scratchPath string, maxDepth int) (BFSTreeFile, error) {
@@ -78,11 +113,7 @@ func WriteZoneBFSTree(zoneNodes graph.NodeSet, ts Triplestore, scratchPath strin
 				func(segment *Segment) bool {
 					numPaths += 1
 
-					if err := MarshalSegment(segment, scratchFileWriter); err != nil {
-						panic(err)
-					}
-
-					if _, err := scratchFileWriter.Write([]byte("\n")); err != nil {
+					if err := writeSegmentRecord(segment, scratchFileWriter); err != nil {
 						panic(err)
 					}
 
